@@ -323,7 +323,41 @@ pub fn render(r: &mut Rng, c: &Call) -> Option<String> {
     PAD.with(|p| p.set(w));
     let out = render0(r, c);
     PAD.with(|p| p.set(0));
-    out
+    // one CSI sequence in ten is respelled: a surplus parameter, a trailing separator, or a private
+    // marker the operation does not use (the dispatch table decides what these mean)
+    match out {
+        Some(s) if r.chance(1, 10) => Some(respell(r, s)),
+        o => o,
+    }
+}
+
+fn respell(r: &mut Rng, s: String) -> String {
+    let cs: Vec<char> = s.chars().collect();
+    let intro = if cs.len() >= 3 && cs[0] == '\x1b' && cs[1] == '[' {
+        2
+    } else if cs.len() >= 2 && cs[0] == '\u{9b}' {
+        1
+    } else {
+        return s;
+    };
+    let fin = cs[cs.len() - 1];
+    if !fin.is_ascii_alphabetic() && fin != '@' {
+        return s;
+    }
+    let head: String = cs[..intro].iter().collect();
+    let body: String = cs[intro..cs.len() - 1].iter().collect();
+    match r.below(4) {
+        0 => format!("{}{};{}{}", head, body, *r.pick(&[0u32, 1, 2, 3, 5, 7, 9999]), fin),
+        1 => format!("{}{};{}", head, body, fin),
+        2 => {
+            if body.starts_with('?') {
+                format!("{}{}{}", head, &body[1..], fin)
+            } else {
+                format!("{}?{}{}", head, body, fin)
+            }
+        }
+        _ => format!("{}{};{};{}{}", head, body, r.below(4), r.below(10), fin),
+    }
 }
 
 fn render0(r: &mut Rng, c: &Call) -> Option<String> {
